@@ -1,6 +1,6 @@
 (** Vocabulary of the idempotence certificate of C20 (Properties/C20c.v): decidable
     conditions on what the first pass of the penman command wrote under which the
-    second pass has nothing left to reify.  Definitions only (extracted for the
+    second pass has nothing left to reify or dereify.  Definitions only (extracted for the
     harness in Extract/ExCli.v); the theorems are in Proofs/NormIdem_lemmas.v. *)
 From PM Require Export Spec.Pipeline Spec.WellFormed Spec.WfLayout.
 
@@ -11,9 +11,13 @@ Definition not_attribute (vars : list atom) (t : triple) : bool :=
   str_eqb (trole t) INSTANCE || mem atom_eqb (ttgt t) vars.
 Definition no_attributes (g : graph) : bool := forallb (not_attribute (variables g)) (triples g).
 
-(* the same options without --reify-edges and --reify-attributes *)
+(* nothing collapsible: the agenda of dereify_edges is empty *)
+Definition agenda_empty (m : model) (g : graph) : bool :=
+  match dereify_agenda m g with Ok [] => true | _ => false end.
+
+(* the same options without --reify-edges, --dereify-edges and --reify-attributes *)
 Definition strip_reify (o : cli_opts) : cli_opts :=
-  mkOpts (o_model o) (o_canonicalize_roles o) false (o_dereify_edges o)
+  mkOpts (o_model o) (o_canonicalize_roles o) false false
          false (o_indicate_branches o) (o_reconfigure o) (o_rearrange o)
          (o_make_variables o) (o_indent o) (o_compact o) (o_triples o) (o_check o) (o_ov o).
 
@@ -22,6 +26,7 @@ Definition entering_graph (o : cli_opts) : stage tree graph := canonicalise o >=
 
 Definition idle_on (o : cli_opts) (g : graph) : bool :=
   (negb (o_reify_edges o) || no_reifiable (o_model o) g) &&
+  (negb (o_dereify_edges o) || agenda_empty (o_model o) g) &&
   (negb (o_reify_attributes o) || no_attributes g).
 
 Definition reify_only (o : cli_opts) : bool := plain (strip_reify o).
